@@ -283,6 +283,30 @@ def run(ctx):
             if (err_ == "err=1") != raised_ or got != wantc:
                 diff_ = sorted(set(got.items()) ^ set(wantc.items()))
                 ctx.broke("correspondence:directory", "%s: after Trajectory.save the directory differs from the model in %s (refused: impl %s, model %s)" % (desc_, diff_[:4], raised_, err_))
+    # ---- a save that cannot succeed (an option the format does not know, a cell the format cannot hold, per-atom data of the wrong length),
+    # asked not to overwrite: whatever it raises, the file that is there stays as it is
+    t_tri = md.Trajectory(t_small.xyz.copy(), t_small.topology, unitcell_lengths=[[3.0, 3.1, 3.2]] * t_small.n_frames, unitcell_angles=[[80.0, 85.0, 100.0]] * t_small.n_frames)
+    for ext_ in savers:
+        ext_ = ext_.lstrip(".")
+        if "." + ext_ in SKIP or ext_ == "dtr":
+            continue
+        for label_, traj_, kw_ in (("an option the format does not know", t_small, dict(no_such_option=3)), ("precision=", t_small, dict(precision=4)),
+                                   ("a skewed cell", t_tri, {}), ("bfactors of the wrong length", t_small, dict(bfactors=np.zeros(5)))):
+            pq = os.path.join(ctx.scratch, "Keep_%s.%s" % (label_[:4].strip("= "), ext_))
+            with open(pq, "wb") as fh_:
+                fh_.write(b"precious " * 40)
+            before_ = sha(pq)
+            ctx.case(None, ("failing-save", ext_, label_)); ctx.count("saves that cannot succeed onto an existing file, force_overwrite=False")
+            with contextlib.redirect_stdout(io.StringIO()):
+                try:
+                    traj_.save(pq, force_overwrite=False, **kw_)
+                    err_ = None
+                except Exception as e:
+                    err_ = type(e).__name__
+            if not os.path.exists(pq) or sha(pq) != before_:
+                viol("failing-save|existing-file-" + ("removed" if not os.path.exists(pq) else "changed"), "Trajectory.save('x.%s', force_overwrite=False) with %s %s; the file that existed at that path %s" % (
+                    ext_, label_, "raised " + err_ if err_ else "returned", "was removed" if not os.path.exists(pq) else "was changed"), dict(ext=ext_, input=label_))
+            clean(pq)
     # ---- a .dtr writer opened under a name that is converted on the way (a Path; an inline str): the directory is only created at the first
     # write, from the name the writer kept — it must be the one that was opened, and another trajectory of the directory must stay as it is.
     # In a child process, working in its own scratch directory: the unrepaired writer clears and writes whatever path it finds in freed memory.
